@@ -104,8 +104,41 @@ func (e *Env) anchors() *anchors {
 		}
 	}
 	need(a.streamFld != nil, "streaming flag (unique bool field of FileIP)")
-	// acquire / release: the functions containing sends / receives on the slot channel
+	// acquire / release: the exported Workflow methods whose call tree contains the sends / receives on the
+	// slot channel (exported API first); fall back to the functions that contain them.
 	if a.slotField != nil {
+		for _, cand := range []struct {
+			name string
+			dst  *[]*ssa.Function
+			send bool
+		}{{"IncConcurrentTasks", &a.acquire, true}, {"DecConcurrentTasks", &a.release, false}} {
+			fn := p.DeclaredMethod("scipipe", "Workflow", cand.name)
+			if fn == nil {
+				continue
+			}
+			for f := range p.Reachable(fn) {
+				if !p.IsLib(f) || f.Blocks == nil {
+					continue
+				}
+				for _, b := range f.Blocks {
+					for _, in := range b.Instrs {
+						switch x := in.(type) {
+						case *ssa.Send:
+							if cand.send && a.isFieldLoad(x.Chan, a.slotField) && len(*cand.dst) == 0 {
+								*cand.dst = append(*cand.dst, fn)
+							}
+						case *ssa.UnOp:
+							if !cand.send && x.Op == token.ARROW && a.isFieldLoad(x.X, a.slotField) && len(*cand.dst) == 0 {
+								*cand.dst = append(*cand.dst, fn)
+							}
+						}
+					}
+				}
+			}
+		}
+	}
+	if a.slotField != nil && (len(a.acquire) == 0 || len(a.release) == 0) {
+		a.acquire, a.release = nil, nil
 		seenA, seenR := map[*ssa.Function]bool{}, map[*ssa.Function]bool{}
 		for _, fn := range p.LibFuncs {
 			for _, b := range fn.Blocks {
@@ -243,6 +276,33 @@ func (e *Env) argSym(n *core.Node, i int) *core.Sym {
 		return nil
 	}
 	return e.symbolizer().InCtx(n.Ctx, n.Call.Args[i])
+}
+
+// xsym is a symboliser that looks through small private helper functions (unexported, at most 60
+// instructions, not one of the path/identity sources the rules name): renaming, extracting or inlining such
+// helpers must not change what a rule sees.
+func (e *Env) xsym() *core.Symbolizer {
+	if e.xs == nil {
+		e.xs = e.P.NewSymbolizer(func(f *ssa.Function) bool {
+			if f.Object() != nil && f.Object().Exported() {
+				return false
+			}
+			n := 0
+			for _, b := range f.Blocks {
+				n += len(b.Instrs)
+			}
+			return n <= 60
+		})
+	}
+	return e.xs
+}
+
+// xargSym: like argSym, through small private helpers.
+func (e *Env) xargSym(n *core.Node, i int) *core.Sym {
+	if n.Call == nil || i >= len(n.Call.Args) {
+		return nil
+	}
+	return e.xsym().InCtx(n.Ctx, n.Call.Args[i])
 }
 
 func (e *Env) symbolizer() *core.Symbolizer {
